@@ -785,7 +785,8 @@ reports the label the code ended with and the model accepts it only as such a fl
 def flipPhase (w : World) (i : Nat) (p : Char) : World :=
   match w.strms[i]? with
   | some s =>
-    if !s.multi && ((s.phase == 'g' && p == 'l') || (s.phase == 'l' && p == 'g')) then
+    -- `phase = self.phase.lower()`: a `'L'` stream is relabelled `'g'` as well
+    if !s.multi && ((s.phase.toLower == 'g' && p == 'l') || (s.phase.toLower == 'l' && p == 'g')) then
       w.setStrm i { s with ph := match s.ph with | (_, r) :: rest => (p, r) :: rest | [] => [] }
     else w
   | none => w
